@@ -270,6 +270,31 @@ def lookup_behaviour(ctx: Ctx) -> None:
                         res.violation(f"C13/lookup-behaviour/{'dropped' if not got else 'wrong-class'}",
                                       f"{framing}: frame with id {ty} ({m.name}, {len(payload)} payload bytes) reached subscribers as {got or 'nothing'}",
                                       {"id": ty, "framing": framing, "payload": payload.hex()}, trace=sim.trace(20))
+            # the class is selected by the id ALONE: consecutive frames of different ids carrying byte-identical non-empty payloads (entities of
+            # different domains with the same name hash to the same key), each in its own chunk and all in one chunk
+            same = b"\xe0\x76\x2a"      # (one unknown varint field: a valid payload for every message)
+            ids_ = [ty for ty in sorted(pr.by_id) if pr.by_id[ty].name not in internal and pr.by_id[ty].name not in ("HelloResponse", "ConnectResponse")]
+            for one_chunk in (False, True):
+                live.ensure()
+                n0 = len(live.log)
+                if one_chunk:
+                    live.dconn.outbox = []
+                for ty in ids_:
+                    live.dconn.send_id(ty, same, None if one_chunk else 0.0)
+                if one_chunk:
+                    out_, live.dconn.outbox = live.dconn.outbox, None
+                    live.dconn.deliver_items(out_, 0.0)
+                sim.run_for(0.05)
+                got_ = [type(x).__name__ for _, x in live.log[n0:]]
+                want_ = [pr.by_id[ty].name for ty in ids_]
+                res.evaluations += 1
+                res.count("S/lookup-behaviour-frames/identical-payload-runs")
+                if got_ != want_:
+                    k_ = next((i for i, (a_, b_) in enumerate(zip(got_, want_)) if a_ != b_), min(len(got_), len(want_)))
+                    res.violation("C13/lookup-behaviour/wrong-class", f"{framing}: {len(ids_)} consecutive frames of different ids with the identical payload "
+                                  f"({'one chunk' if one_chunk else 'separate chunks'}): frame #{k_} (id {ids_[k_] if k_ < len(ids_) else '?'}, "
+                                  f"{want_[k_] if k_ < len(want_) else '?'}) reached subscribers as {got_[k_] if k_ < len(got_) else 'nothing'}",
+                                  {"framing": framing, "identical_payload": same.hex(), "one_chunk": one_chunk}, trace=sim.trace(20))
             # "... and nothing else is": a type number that api.proto does not declare selects NO class, whatever its low bits / low byte /
             # value modulo a power of two happen to be (plaintext carries the number as a varint, Noise as a 16-bit field)
             top = max(pr.by_id)
